@@ -209,8 +209,8 @@ def _recall_compute(
     elif average == "macro":
         return recall.mean()
     elif average == "weighted":
-        # pyre-fixme[61]: `mask` is undefined, or not always defined.
-        weights = num_labels[mask] / num_labels.sum()
+        # `num_labels` has already been restricted to the classes kept by `mask`
+        weights = num_labels / num_labels.sum()
         return (recall * weights).sum()
     else:  # average is None
         return recall
